@@ -241,12 +241,41 @@ def gen_config(rng, fam, out, i):
     for s, d in enumerate(streams):
         for k2 in ("w2", "h2", "type2"):
             d.pop(k2, None)
+    if ns == 1 and rng.random() < 0.15:
+        # the same scenario on stream 1 with stream 0 left unconfigured (valid_video_streams == 0b10)
+        lines = [l.replace("streams 1", "streams 2") for l in lines] + ["noinit 1"]
+        dummy = dict(streams[0], frames=0, trigger=0, camfail=-1, stofail=-1, shapefail=-1, zero=-1)
+        streams = [dummy, streams[0]]
+        prog = ["cfg", "-1", "-1", "1", "1"] + to_stream1(prog)
+    for s, d in enumerate(streams):
         lines.append(fmt_stream(s, d))
     lines.append("prog " + " ".join(prog))
     if aborter:
         lines.append("aborter %d %s" % aborter)
     lines.append("out " + out)
     return "\n".join(lines) + "\n"
+
+
+# ops of the client program that name a stream as their first argument, with their argument counts
+STREAM_OPS = {"map": 1, "unmap": 2, "monitor": 3, "trigger": 1, "triggers": 3, "shape": 3, "pixtype": 2, "waitstor": 2, "query": 1}
+OTHER_OPS = {"yield": 1, "cfg": 4}
+
+
+def to_stream1(prog):
+    out, i = [], 0
+    while i < len(prog):
+        op = prog[i]
+        if op in STREAM_OPS:
+            n = STREAM_OPS[op]
+            out += [op, "1" if prog[i + 1] == "0" else prog[i + 1]] + prog[i + 2:i + 1 + n]
+            i += 1 + n
+        elif op in OTHER_OPS:
+            out += prog[i:i + 1 + OTHER_OPS[op]]
+            i += 1 + OTHER_OPS[op]
+        else:
+            out.append(op)
+            i += 1
+    return out
 
 
 def gen_lifecycle(rng, out, i):
@@ -468,9 +497,9 @@ def run_family(chk, prop, exe, bdir, fam, n, rng, tag):
     return stats, allp
 
 
-def pipeline_cfg(path, n=3, k=2, avg=1, epochs=2, abort=True, monitor=True, camfail=99, storfail=99, repaired=True, live=True):
-    t = "CONSTANTS N = %d K = %d AVG = %d Epochs = %d WithAbort = %s WithMonitor = %s CamFailAt = %d StorFailAt = %d Repaired = %s\n" % (
-        n, k, avg, epochs, "TRUE" if abort else "FALSE", "TRUE" if monitor else "FALSE", camfail, storfail, "TRUE" if repaired else "FALSE")
+def pipeline_cfg(path, n=3, k=2, avg=1, epochs=2, abort=True, monitor=True, camfail=99, storfail=99, repaired=True, live=True, delay=0):
+    t = "CONSTANTS N = %d K = %d AVG = %d Epochs = %d WithAbort = %s WithMonitor = %s Delay = %d CamFailAt = %d StorFailAt = %d Repaired = %s\n" % (
+        n, k, avg, epochs, "TRUE" if abort else "FALSE", "TRUE" if monitor else "FALSE", delay, camfail, storfail, "TRUE" if repaired else "FALSE")
     t += "SPECIFICATION Spec\nINVARIANTS NoBad StorPrefix MonFresh\nCHECK_DEADLOCK FALSE\n"
     if live:
         t += "PROPERTIES StopReturns Terminates\n"
@@ -479,7 +508,8 @@ def pipeline_cfg(path, n=3, k=2, avg=1, epochs=2, abort=True, monitor=True, camf
 
 # implementation-shaped model configurations per property (quick, thorough)
 MODELS = {
-    "C04": ([dict(abort=False)], [dict(abort=False, n=4, k=2), dict(abort=False, n=4, k=3), dict(abort=False, n=3, k=1)]),
+    "C04": ([dict(abort=False), dict(abort=False, delay=2, monitor=False)],
+            [dict(abort=False, n=4, k=2), dict(abort=False, n=4, k=3), dict(abort=False, n=3, k=1), dict(delay=2, n=3, k=2)]),
     "C05": ([], []),
     "C06": ([dict()], [dict(n=4, k=2), dict(n=3, k=1)]),
     "C07": ([dict()], [dict(n=4, k=2), dict(n=3, k=3), dict(avg=2, n=4)]),
@@ -535,11 +565,12 @@ def collect_models(chk, futs):
 # code -> Impl spec: recorded executions of the real runtime must be behaviours of Pipeline.tla (DRIFT detector)
 
 def gen_refine(rng, out, prop):
-    """Single stream, no write delay, finite N: the fragment Pipeline.tla models."""
+    """Single stream, finite N, sometimes a write delay: the fragment Pipeline.tla models."""
     avg = rng.choice([2, 2, 3]) if prop == "C10" else 1
     d = stream_line(rng, 0, "refine", avg)
     d["frames"] = rng.randint(avg, 2 * avg) if avg > 1 else rng.randint(1, 4)
-    d["delay_ms"] = 0
+    d["delay_ms"] = rng.choice([0, 0, 1, 3]) if prop == "C04" else 0
+    d["zero"] = -1
     d["camstop"] = rng.choice([0, 2])
     epochs = rng.choice([1, 2])
     if prop == "C09":
@@ -563,7 +594,7 @@ def gen_refine(rng, out, prop):
         prog += [end]
     lines += ["prog " + " ".join(prog), "out " + out]
     K = -(-cap // fb) + 1
-    consts = dict(n=d["frames"], k=K, avg=avg, epochs=epochs, abort=True, monitor=True,
+    consts = dict(n=d["frames"], k=K, avg=avg, epochs=epochs, abort=True, monitor=True, delay=(d["frames"] + 1) if d["delay_ms"] else 0,
                   camfail=d["camfail"] if d["camfail"] >= 0 else 99, storfail=d["stofail"] if d["stofail"] >= 0 else 99)
     return "\n".join(lines) + "\n", consts
 
@@ -647,8 +678,8 @@ def refine_family(chk, prop, exe, bdir, rng, n):
             for e in evs:
                 f.write(json.dumps(e) + "\n")
         mc = out + ".cfg"
-        t = "CONSTANTS N = %d K = %d AVG = %d Epochs = %d WithAbort = TRUE WithMonitor = TRUE CamFailAt = %d StorFailAt = %d Repaired = TRUE\n" % (
-            consts["n"], consts["k"], consts["avg"], consts["epochs"], consts["camfail"], consts["storfail"])
+        t = "CONSTANTS N = %d K = %d AVG = %d Epochs = %d WithAbort = TRUE WithMonitor = TRUE Delay = %d CamFailAt = %d StorFailAt = %d Repaired = TRUE\n" % (
+            consts["n"], consts["k"], consts["avg"], consts["epochs"], consts.get("delay", 0), consts["camfail"], consts["storfail"])
         t += "SPECIFICATION TSpec\nINVARIANT NotAccepted\nACTION_CONSTRAINT TrackMax\nPOSTCONDITION Report\nCHECK_DEADLOCK FALSE\n"
         write_cfg(mc, t)
         r = tlc("PipelineTrace", mc, bdir, workers=1, timeout=600, env={"TRACE": tr}, coverage=False, heap="3g", dfs_queue=True)
